@@ -375,7 +375,9 @@ func (p *Path) doAssert(c *Term, label string) {
 	}
 	neg := ts.BNot(c)
 	q := p.sliceFor(neg)
+	r.solver.obligation = true
 	res, m := r.solver.Check(q, true)
+	r.solver.obligation = false
 	switch res {
 	case Unsat:
 		st.Unsat++
